@@ -1,6 +1,6 @@
 """C04 -- concurrent library sessions are serialised and survive failing sessions."""
 import os, json
-import vlib, c04_skel
+import vlib, c04_skel, c04_mp
 
 
 def run(ctx, rep):
@@ -23,8 +23,51 @@ def run(ctx, rep):
                 rep.violate(f"C04:{kind}:file-left-open:" + "+".join(sorted(S)),
                             f"{kind}() with {sorted(S)} raising leaves the library file open",
                             {"kind": "vector", "session": kind, "faults": sorted(S)})
-    rep.exhaustive = True
     ok, out, where = vlib.build_props(ctx, rep, "C04")
+    # ---- real processes
+    nproc = 3 if ctx.thorough else 2
+    W = c04_mp.Workers(ctx, max(nproc, 6 if ctx.thorough else 4))
+    try:
+        cases, meta = [], []
+        path0 = os.path.join(ctx.sub("c04"), "s")
+        for n in range(1200 if ctx.thorough else 120):
+            sched = c04_mp.gen_schedule(ctx.rng, nproc)
+            case, labels, outs = c04_mp.run_schedule(W, f"{path0}{n}.ukv", sched, nproc)
+            cases.append(case); meta.append((labels, outs))
+            refused = any(o == "Refused" for o in outs)
+            rep.case(key="; ".join(labels) if refused or any("RErr" in o for o in outs) else None,
+                     sample={"labels": labels[:10], "outcomes": outs[:10]} if n in (3, 17) else None)
+            rep.count("schedule:" + ("with-refused-acquire" if refused else "no-contention"))
+            for o in outs:
+                if "ROther" in o:
+                    rep.violate("C04:stepped:unexpected-exception", f"schedule {labels}: {o}", {"kind": "stepped", "labels": labels})
+        bad = vlib.run_shards(ctx, rep, "c04", c04_mp.HEADER, "check_mcase", cases, shard=100, case_type="mcase")
+        if bad is None:
+            vlib.broken_obligation(rep, "corr_c04", "a correspondence shard did not compile: " + str(rep.extra.get("shard_errors"))[-1500:], bool(rep.violations))
+        elif bad:
+            labels, outs = meta[bad[0]]
+            # a refused acquire that the model allows, or an acquire granted that the model refuses, IS a violation of
+            # mutual exclusion / progress: report the schedule as the failing input
+            rep.violate("C04:stepped:differs-from-lock-semantics",
+                        f"{len(bad)} stepped schedules end differently from the reader/writer-lock transition system; first: {labels} -> {outs}",
+                        {"kind": "stepped", "labels": labels, "outcomes": outs})
+        # free-running schedules with injected delays, faults and path aliases
+        rounds = 12 if ctx.thorough else 3
+        for rd in range(rounds):
+            viol, nsess, niv = c04_mp.free_run(ctx, W, len(W.ps), 10 if ctx.thorough else 5, aliases=True)
+            rep.case(key=f"free-run-{rd}:{nsess}-sessions")
+            rep.count("free:sessions", nsess); rep.count("free:file-intervals", niv)
+            for sig, text in viol[:5]:
+                rep.violate(sig, text, {"kind": "free", "round": rd, "seed": ctx.seed})
+            W.close(); W = c04_mp.Workers(ctx, len(W.ps))
+        probe = c04_skel.Probe(ctx)
+        try:
+            if not probe.free(os.path.join(ctx.sub("c04free"), "lib.ukv")):
+                rep.violate("C04:free:lock-leaked", "after all sessions ended a fresh process cannot take the lock", {"kind": "free"})
+        finally:
+            probe.close()
+    finally:
+        W.close()
     if not ok:
         vlib.broken_obligation(rep, "Props/C04.v", (f"AST extractor refused: {refusal}\n" if refusal else "") + f"{where}\n{out[-1500:]}",
                                bool(rep.violations))
